@@ -64,6 +64,7 @@ class CTS_ECB(Mode):
         super().__init__(cipher,pad)
     # encryption mode
     def enc(self,M):
+        self.pad.reset()
         n,p = divmod(len(M),self.len)
         C = []
         for b in self.iterblocks(M[:n*self.len]):
@@ -123,6 +124,7 @@ class CTS_CBC(Mode):
         self.IV = IV
     # encryption mode
     def enc(self,M):
+        self.pad.reset()
         n,p = divmod(len(M),self.len)
         C = [self.IV]
         for b in self.iterblocks(M[:n*self.len]):
